@@ -155,7 +155,7 @@ VAR_POOL = ['A', 'B', 'C', 'G', 'W', 'X', 'Y', 'Z', 'a', 'b', 'n', 's', 'is_open
             'expo', 'logX', 'maxi', 'min_', 'abs_', 'np_', 'e5', 'selfie', 't', 'T', 'if_', 'or_1', 'Not', 'elsewhere']
 TRAP_NAMES = set(VAR_POOL[12:]) | {'_x', '_'}
 LITERALS = ['0', '1', '2', '3', '10', '0.5', '1.25', '2.0', '0.1', '.5', '1.', '100', '0.001', '12.75']
-FUNCS_TEXT = ['exp', 'log', 'max', 'min', 'abs', 'np.sqrt', 'f', 'np.log1p', 'expm1']
+FUNCS_TEXT = ['exp', 'log', 'max', 'min', 'abs', 'np.sqrt', 'f', 'np.log1p', 'expm1', 'math.log', 'np.exp', 'a.min', 'np.max', 'myexp', 'xlog', 'logmax']
 KWS = ['if', 'else', 'and', 'or', 'not', 'in', 'is', 'None', 'True']
 OPS_TEXT = ['+', '-', '*', '/', '**', '<', '>', '<=', '>=', '==', '!=', ',']
 VERBS = ['x', 'self.k', 'np.pi', '1+2', 'v(t)', 'a  + b', 'Y[t-1]']
@@ -175,7 +175,10 @@ def term_text(rng, kind, name, k, f20=False):
     sign = '-' if k < 0 else (rng.choice(['', '', '+']) if rng else '')
     if k == 0 and rng and rng.random() < 0.2:
         sign = '-'
-    return base + ((rng.choice([' ', '  ', '\t']) if rng else ' ') if f20 else '') + '[' + sp() + sign + str(abs(k)) + sp() + ']'
+    digits = str(abs(k))
+    if rng and len(digits) >= 2 and rng.random() < 0.1:
+        digits = digits[0] + '_' + digits[1:]            # int('1_0') == 10
+    return base + ((rng.choice([' ', '  ', '\t']) if rng else ' ') if f20 else '') + '[' + sp() + sign + digits + sp() + ']'
 
 
 def rule_text(tk, mode):
@@ -513,6 +516,8 @@ def prog_case(rng, eqs, f20=False, n=None, t=None, catch=False, data=None):
                 names.append(nm)
     if data is None:
         data = gen_data(rng, names, n, rng.random() < 0.2) if rng else {nm: [lib.fhex(1.0 + i + j) for j in range(n)] for i, nm in enumerate(names)}
+    if rng and rng.random() < 0.1:
+        t = t - n                   # the same feasible period, spelled as a negative position
     c = {'kind': 'prog', 'script': script, 'eqs': eqs, 'stmts': stmts, 'n': n, 't': t, 'catch': bool(catch), 'data': data}
     if hit:
         c['f20'] = True
@@ -557,7 +562,7 @@ def gen_prog(rng):
     two = rng.random() < 0.12
     ctx = {'L': rng.choice([[], [1], [1], [1, 2], [1, 2, 3], [1, 3]]), 'Ld': rng.choice([[], [], [], [1], [1, 2], [3]])}
     if two:
-        ctx['L'] = ctx['L'] + [rng.choice([10, 12])]
+        ctx['L'] = ctx['L'] + [rng.choice([10, 12, 13, 25, 100])]
         ctx['Ld'] = ctx['Ld'] + ([10] if rng.random() < 0.4 else [])
     neq = rng.choice([1, 2, 2, 3, 3, 4])
     pool = VAR_POOL + (['_x', '_', '__y__', 'x_'] if rng.random() < 0.05 else [])
@@ -575,6 +580,13 @@ def gen_prog(rng):
             e = {'lhs': [y, k0], 'rhs': gen_rhs(rng, ctx)}
             if supported(e):
                 break
+        if rng.random() < 0.03 and e['rhs'][0] != 'if':
+            # an operation CPython performs on Python numbers alone (no series operand): 1/0 raises ZeroDivisionError, 10.0 ** 400 and
+            # 10 ** 400 raise OverflowError when evaluated / stored.  Outside the model's subset (K_pyast / K_eval have nothing to say);
+            # the oracle compares the real pass with Python's own evaluation of the equation as written
+            trap = rng.choice([['par', ['bin', '/', ['num', '1'], ['num', '0']]], ['bin', '**', ['num', '10.0'], ['num', '400']],
+                               ['bin', '**', ['num', '10'], ['num', '400']], ['par', ['bin', '/', ['num', '2.5'], ['par', ['bin', '-', ['num', '1'], ['num', '1']]]]]])
+            e = {'lhs': [y, k0], 'rhs': ['bin', rng.choice(['*', '+']), e['rhs'], trap]}
         else:
             e = {'lhs': [y, k0], 'rhs': ['var', 'v', names[-1], 0]} if ctx['kind'][names[-1]] == 'v' else {'lhs': [y, k0], 'rhs': ['num', '1']}
         eqs.append(e)
@@ -586,7 +598,7 @@ def gen_prog(rng):
 def gen_text_stmt(rng, lhs, kinds):
     def term():
         nm = rng.choice(list(kinds))
-        k = rng.choice([None, None, None, -1, -2, 1, 2, 0, -10, 12, 3])
+        k = rng.choice([None, None, None, -1, -2, 1, 2, 0, -10, 12, 3, 13, -25, 100, -123])
         return ['T', kinds[nm], nm, k, term_text(rng, kinds[nm], nm, k)]
 
     def atom():
@@ -678,7 +690,7 @@ def enum_text(tier):
     A, O = ENUM_ATOMS, [['O', o] for o in ENUM_OPS]
     bodies = [[a] for a in A] + [[['O', '-'], a] for a in A]
     bodies += [[a, o, b] for a in A for o in O for b in A]
-    bodies += [[['F', f], ['('], a, [')']] for f in ('exp', 'log', 'abs', 'np.sqrt') for a in A]
+    bodies += [[['F', f], ['('], a, [')']] for f in ('exp', 'log', 'abs', 'np.sqrt', 'math.log', 'np.exp', 'a.min', 'xlog') for a in A]
     bodies += [[['F', f], ['('], a, ['O', ','], b, [')']] for f in ('max', 'min') for a in A for b in A]
     C = [A[0], A[1], A[4], A[12]] + ([A[6], A[13]] if tier != 'quick' else [])          # X, X[-1], {a}, 2 (, < e >, 0.5)
     bodies += [[a, ['K', 'if'], b, ['O', op], c, ['K', 'else'], d] for a in C for b in C for op in CMP_OPS for c in C for d in C
@@ -776,20 +788,22 @@ def impl(case):
     except Exception:      # noqa: BLE001 - the second parse below reports the class
         pass
     o['line'] = pc.real_line(script)
+    o['line_default'] = pc.real_line(script, check_syntax=True)         # the default path: parse_model(script) with its syntax check
     try:
         symbols = fsic.parse_model(script, check_syntax=False)
     except Exception as e:      # noqa: BLE001 - the class name is the observation
         o['parse_exc'] = type(e).__name__
         return o
     o['syms'] = [[s.name, s.type.name, s.equation, s.code] for s in symbols]
-    try:
-        for s in symbols:
-            if s.code is not None:
-                with warnings.catch_warnings():
-                    warnings.simplefilter('error')
-                    compile(s.code, '<string>', 'exec')
-    except (SyntaxError, SyntaxWarning, ValueError, RecursionError, MemoryError, OverflowError) as e:
-        o['compile_exc'] = type(e).__name__
+    # what parse_model's syntax check observes for each generated statement (compiled as build_model embeds it)
+    o['chk'] = {}
+    for s in symbols:
+        if s.code is not None:
+            out, _cls = pc.compile_outcome(s.code)
+            if out != 'ok':
+                o['chk'][pc.hx(s.code)] = out
+    if o['chk']:
+        o['compile_exc'] = sorted(o['chk'].values())[0]
         return o
     try:
         Model = fsic.build_model(symbols)
@@ -803,6 +817,10 @@ def impl(case):
                                                    errors=Model.ERRORS, lags=Model.LAGS, leads=Model.LEADS, equations='')
     if Model.CODE.startswith(head):
         o['block'] = Model.CODE[len(head):]
+    try:
+        o['body'] = [ast.dump(x) for x in em.evaluate_body(Model.CODE)]
+    except (em.Unsupported, SyntaxError, ValueError, RecursionError, MemoryError):
+        o['body'] = None
     try:
         o['prog'] = em.translate_code(Model.CODE, names)
     except em.Unsupported as e:
@@ -889,6 +907,14 @@ def correspond(cases, obs, tag, tier):
     for i, a in zip(live, ans):
         if a != 'U' and a != obs[i]['line']:
             note(i, 'K_parse', a, obs[i]['line'])
+    # ---- K_parse (default path): parse_model_M with the syntax check, the check's outcomes as observed
+    dflt = [i for i in live if obs[i].get('line_default') is not None and 'chk' in obs[i] and not any(v == 'ox' for v in obs[i]['chk'].values())]
+    ans, errs = pc.run_driver(['C ' + pc.hx(cases[i]['script']) + ''.join(' %s=%s' % kv for kv in sorted(obs[i]['chk'].items())) for i in dflt])
+    if errs:
+        return [], errs
+    for i, a in zip(dflt, ans):
+        if a != 'U' and a != obs[i]['line_default']:
+            note(i, 'K_parse_default', a, obs[i]['line_default'])
     # ---- K_text
     ans, errs = run_codegen(['X ' + pc.hx(s) for s in scripts])
     if errs:
@@ -917,7 +943,7 @@ def correspond(cases, obs, tag, tier):
         if a == 'N' or real is None:
             # evalmodel refuses (fail-closed) what CPython computes on ints rather than floats beyond constant folding
             # (e.g. -max(0, X)): no reading of the real code to compare with
-            refused = real is None and 'Python int' in str(o.get('why', ''))
+            refused = real is None and 'Python' in str(o.get('why', ''))
             if (a == 'N') != (real is None) and cases[i]['kind'] in ('prog', 'mix') and not refused:
                 note(i, 'K_pyast', a[:300], real if real is not None else o.get('why', o.get('build_exc', o.get('compile_exc'))))
             continue
@@ -938,6 +964,7 @@ def correspond(cases, obs, tag, tier):
     elig = [i for i in live if cases[i]['kind'] in ('prog', 'mix') and 'after' in obs[i] and not guard(cases[i], obs[i])]
     # the Coq model reads every literal as a float: a Python int zero has no sign (-0 is 0, 0 * -1 is 0), a float zero has
     elig = [i for i in elig if reference_pass(cases[i])[:2] == reference_pass(cases[i], floats=True)[:2]]
+    elig = [i for i in elig if not (obs[i]['prog'] == 'untranslatable' and 'Python' in str(obs[i].get('why', '')))]      # Python-number arithmetic: outside the model
     for i in list(elig):
         if obs[i]['exc'] not in (None, 'RuntimeWarning', 'IndexError') or obs[i]['prog'] == 'untranslatable':
             note(i, 'K_eval', 'not expressible', obs[i]['exc'] or obs[i].get('why'))
@@ -977,6 +1004,24 @@ def _raw_classes(s):
     brace = '{{' in body or '}}' in body          # doubled braces are str.format escapes; a stray single brace is a ParserError (no finding)
     fused = re.search(r'(?<![A-Za-z_0-9])(?:%s)[{<]' % '|'.join(KWS), body) is not None
     return f20, brace, fused
+
+
+def same_meaning(a, b):
+    """two pieces of generated text mean the same: identical, or the same CPython AST, or (when neither parses: keywords, verbatim soup)
+    the same text up to runs of blanks.  The property constrains what the code MEANS, not its layout; the model ties (K) stay exact."""
+    if a == b:
+        return True
+    if a is None or b is None:
+        return False
+    try:
+        return ast.dump(ast.parse(a)) == ast.dump(ast.parse(b))
+    except (SyntaxError, ValueError, RecursionError, MemoryError):
+        return ' '.join(a.split()) == ' '.join(b.split())
+
+
+def eq_meaning(a, b):
+    """normalised equations (not Python: NAME[t-1], backticked fragments): the same up to runs of blanks"""
+    return a == b or (a is not None and b is not None and ' '.join(a.split()) == ' '.join(b.split()))
 
 
 def guard(case, obs):
@@ -1066,7 +1111,12 @@ def reference_pass(case, floats=False, order=None):
                 continue
             try:
                 v = eval(ref_source(e['rhs'], floats), {'np': np, 'R': R, 'max': max, 'min': min, 'abs': abs, '__builtins__': {}})
-            except Warning as w:
+            except (Warning, ZeroDivisionError, OverflowError) as w:
+                exc = type(w).__name__
+                break
+            try:
+                v = np.float64(v)
+            except OverflowError as w:          # an int no float can hold
                 exc = type(w).__name__
                 break
             acc.append(('W', e['lhs'][0], t + e['lhs'][1]))
@@ -1092,6 +1142,11 @@ def oracle(case, obs):
         if kind != 'raw' or 'expect' in case:
             bad('parse|' + obs.get('parse_exc', '?'), 'a script inside the documented syntax was not accepted (%s)' % obs.get('parse_exc'))
         return fails
+    if obs.get('line_default') is not None and obs['line_default'] != obs['line']:
+        # the default path (with the syntax check) may only differ by rejecting a script one of whose statements does not compile
+        if not (obs['line_default'] == 'E:ParserError' and obs.get('chk')):
+            bad('parse|default-path', 'parse_model(script) gives %s, parse_model(script, check_syntax=False) gives %s although every generated '
+                'statement compiles' % (obs['line_default'][:60], obs['line'][:60]))
     if name_clash(case) or case.get('reject'):
         bad('parse|series-and-function-name-accepted', 'a name is used both as a series and as a function (or the script must be rejected with %s), '
             'yet parse_model accepted the script: NAMES / symbols %s' % (case.get('reject', 'SymbolError'), [s[:2] for s in obs['syms']][:8]))
@@ -1112,7 +1167,7 @@ def oracle(case, obs):
         if s is None or s[1] != 'ENDOGENOUS' or s[3] is None:
             bad('symbols|lhs-missing', 'no endogenous symbol with code for the left-hand variable %s' % y)
             continue
-        if s[3] != code or s[2] != eq:
+        if not same_meaning(s[3], code) or not eq_meaning(s[2], eq):
             split = re.search(r'(?:self\._)?%s\[t\]\s+\[' % IDENT, s[3]) is not None
             if (f20 or f20_raw) and split:
                 skip_values = True
@@ -1122,9 +1177,9 @@ def oracle(case, obs):
             elif brace_raw and any(x not in s[3] for x in re.findall(r'self\._\w+\[t[^\]]*\]', code)):
                 bad('code|brace-outside-parameter', 'braces outside a parameter term are consumed by str.format: code %r instead of %r' % (s[3], code))
             else:
-                if s[3] != code:
+                if not same_meaning(s[3], code):
                     bad('code|text', 'Symbol.code of %s is %r, the rule gives %r' % (y, s[3], code))
-                if s[2] != eq:
+                if not eq_meaning(s[2], eq):
                     bad('equation|text', 'Symbol.equation of %s is %r, the rule gives %r' % (y, s[2], eq))
     # ---- names and CODE of the built class
     if kind == 'raw':
@@ -1143,8 +1198,14 @@ def oracle(case, obs):
             lhs_order = [y for y in (names_want or []) if y in {w[0] for w in want}]
             if names_want is not None and [s[0] for s in endo] != lhs_order:
                 bad('CODE|statements', 'statements are emitted for %s, symbol-list order of the left-hand names is %s' % ([s[0] for s in endo], lhs_order))
-            if block == '' or not obs['code'].endswith('"""\n' + block):
-                bad('CODE|statements', 'Model.CODE does not end with `# equation` + code of every endogenous symbol in symbol order')
+            # the body of _evaluate = the code of the emitting symbols, in symbol-list order (compared as CPython ASTs: comments, the
+            # docstring and the layout of the class text are not the property's business; K_code compares the text exactly)
+            try:
+                want_body = [ast.dump(x) for x in ast.parse('\n'.join(s[3] for s in emit)).body]
+            except (SyntaxError, ValueError, RecursionError, MemoryError):
+                want_body = None
+            if want_body is not None and obs.get('body') is not None and obs['body'] != want_body:
+                bad('CODE|statements', 'the statements of _evaluate in Model.CODE are not the code of the emitting symbols in symbol-list order')
     if kind == 'mix':
         got_v = [s[3] for s in obs['syms'] if s[1] == 'VERBATIM']
         if sorted(got_v) != sorted(v['code'] for v in case['vstmts']):
@@ -1187,11 +1248,23 @@ def oracle(case, obs):
     for nm in names:
         if nm in store and obs['after'][row[nm]] != store[nm]:
             q = [a != b for a, b in zip(obs['after'][row[nm]], store[nm])].index(True)
-            lhs = any(e['lhs'][0] == nm and case['t'] + e['lhs'][1] == q for e in eqs) or any(v['spec'][0] == nm and case['t'] + v['spec'][1] == q for v in case.get('vstmts', []))
+            lhs = any(e['lhs'][0] == nm and (case['t'] + e['lhs'][1]) % case['n'] == q for e in eqs) or any(v['spec'][0] == nm and (case['t'] + v['spec'][1]) % case['n'] == q for v in case.get('vstmts', []))
             bad('evaluate|value' if lhs else 'evaluate|frame', '%s[%d] is %s after _evaluate(%d), the equations give %s (before: %s)'
                 % (nm, q, obs['after'][row[nm]][q], case['t'], store[nm][q], obs['before'][row[nm]][q]))
     want_log = [[k, row.get(nm, -1), i] for k, nm, i in acc]
-    if obs['log'] != want_log:
+
+    def segments(log):
+        """[(set of cells read, cell written)] per statement: the writes in order, the reads of each statement as a SET (a generator that
+        cached a repeated read would still evaluate the equation as written; K_eval compares the exact sequence)"""
+        out, cur = [], set()
+        for k, x, i in log:
+            if k == 'W':
+                out.append((sorted(cur), (x, i)))
+                cur = set()
+            else:
+                cur.add((x, i))
+        return out + ([(sorted(cur), None)] if cur else [])
+    if segments(obs['log']) != segments(want_log):
         bad('evaluate|reads', 'access sequence %s, the equations read/write %s' % (obs['log'][:12], want_log[:12]))
     return fails
 
